@@ -416,6 +416,8 @@ static void mode_c13 (void)
     if (!ok || !gen_valid (&ps)) { vh_count ("c13.invalid_spec", 1); continue; }
     /* float constants / params of all classes */
     if (vh_chance (&r, 1, 4)) { int i; for (i = 0; i < ps.nvars; i++) if (ps.vars[i].kind == VK_PARAM && ps.vars[i].size == 8 && vh_chance (&r, 1, 2)) ps.vars[i].ptype = PT_DOUBLE; else if (ps.vars[i].kind == VK_PARAM && ps.vars[i].size == 4 && vh_chance (&r, 1, 2)) ps.vars[i].ptype = PT_FLOAT; }
+    /* declared alignments of any size, also smaller than the element (the format stores what was declared) */
+    if (vh_chance (&r, 1, 3)) { static const int als[] = { 1, 2, 4, 8, 16, 32, 64 }; int i; for (i = 0; i < ps.nvars; i++) if ((ps.vars[i].kind == VK_SRC || ps.vars[i].kind == VK_DEST) && vh_chance (&r, 1, 2)) ps.vars[i].align = als[vh_randn (&r, 7)]; vh_count ("c13.arbitrary_alignments", 1); }
     c13_one (&ps, c);
     vh_set_addf ("c13.param_types", "%d", 0);
     if ((c & 255) == 0) vh_flush ();
@@ -595,7 +597,9 @@ static void c15_print (const ProgSpec *ps, VhBuf *b, VhRng *r, int rendering)
 {
   GenPrintStyle st = { 0 };
   st.crlf = (rendering & 1); st.tabs = (rendering >> 1) & 1; st.spaces_after_comma = !((rendering >> 2) & 1); st.comments = rendering != 0; st.blank_lines = rendering != 0; st.hex = (rendering >> 1) & 1;
+  gen_print_no_l = rendering ? (int) vh_randn (r, 2) : 0;
   gen_print_orc (ps, b, &st, rendering ? r : NULL);
+  gen_print_no_l = 0;
   (void) print_literal;
 }
 
@@ -630,7 +634,9 @@ static void c15_one (ProgSpec *ps, long caseidx, VhRng *r)
       orc_bytecode_free (bc_api); orc_program_free (api);
       api = gen_build (&lit); bc_api = orc_bytecode_from_program (api);
       st.spaces_after_comma = vh_chance (r, 1, 2); st.hex = vh_chance (r, 1, 2); st.inline_consts = 1; st.tabs = vh_chance (r, 1, 4);
+      gen_print_no_l = vh_chance (r, 1, 2);
       gen_print_orc (&lit, &b, &st, NULL);
+      gen_print_no_l = 0;
       vh_count ("c15.literal_renderings", 1);
     } else
     c15_print (ps, &b, r, k == 0 ? 0 : 1 + (int) vh_randn (r, 7));
@@ -955,6 +961,68 @@ static void ext_rule_sse (OrcCompiler *p, void *user, OrcInstruction *insn)
   if ((k & 7) == 4) { int c7 = orc_compiler_get_constant (p, 2, 7); orc_sse_emit_paddw (p, c7, dest); }
 }
 
+/* opcode shapes no built-in has: three vector sources; two destinations with two sources */
+static unsigned long shape_emu_calls[2];
+static void shape_emu_mac3 (OrcOpcodeExecutor *ex, int offset, int n) { int i; orc_int16 *d = ex->dest_ptrs[0]; const orc_int16 *a = ex->src_ptrs[0], *b = ex->src_ptrs[1], *c = ex->src_ptrs[2]; shape_emu_calls[0]++; for (i = 0; i < n; i++) d[i] = (orc_int16) (a[i] * b[i] + c[i]); }
+static void shape_emu_sumdiff (OrcOpcodeExecutor *ex, int offset, int n) { int i; orc_int16 *d1 = ex->dest_ptrs[0], *d2 = ex->dest_ptrs[1]; const orc_int16 *a = ex->src_ptrs[0], *b = ex->src_ptrs[1]; shape_emu_calls[1]++; for (i = 0; i < n; i++) { d1[i] = (orc_int16) (a[i] + b[i]); d2[i] = (orc_int16) (a[i] - b[i]); } }
+static void shape_rule_mac3 (OrcCompiler *p, void *user, OrcInstruction *insn)
+{
+  int s0 = p->vars[insn->src_args[0]].alloc, s1 = p->vars[insn->src_args[1]].alloc, s2 = p->vars[insn->src_args[2]].alloc, d = p->vars[insn->dest_args[0]].alloc;
+  int tmp = orc_compiler_get_temp_reg (p);
+  orc_sse_emit_movdqa (p, s0, tmp); orc_sse_emit_pmullw (p, s1, tmp); orc_sse_emit_paddw (p, s2, tmp); orc_sse_emit_movdqa (p, tmp, d);
+}
+static void shape_rule_sumdiff (OrcCompiler *p, void *user, OrcInstruction *insn)
+{
+  int s0 = p->vars[insn->src_args[0]].alloc, s1 = p->vars[insn->src_args[1]].alloc, d1 = p->vars[insn->dest_args[0]].alloc, d2 = p->vars[insn->dest_args[1]].alloc;
+  int tmp = orc_compiler_get_temp_reg (p);
+  orc_sse_emit_movdqa (p, s0, tmp); orc_sse_emit_psubw (p, s1, tmp);           /* tmp = a - b */
+  if (d1 != s0) orc_sse_emit_movdqa (p, s0, d1);
+  orc_sse_emit_paddw (p, s1, d1);                                                /* d1 = a + b */
+  orc_sse_emit_movdqa (p, tmp, d2);
+}
+
+static void c20_shapes (long scen, OrcTarget *sse)
+{
+  static OrcStaticOpcode shp[3]; OrcOpcodeSet *os; OrcRuleSet *rs; int which; char what[300];
+  memset (shp, 0, sizeof shp);
+  snprintf (shp[0].name, sizeof shp[0].name, "mac3w"); shp[0].dest_size[0] = 2; shp[0].src_size[0] = 2; shp[0].src_size[1] = 2; shp[0].src_size[2] = 2; shp[0].emulateN = shape_emu_mac3;
+  snprintf (shp[1].name, sizeof shp[1].name, "sumdiffw"); shp[1].dest_size[0] = 2; shp[1].dest_size[1] = 2; shp[1].src_size[0] = 2; shp[1].src_size[1] = 2; shp[1].emulateN = shape_emu_sumdiff;
+  if (!orc_opcode_register_static (shp, "shape")) { spec_viol ("C20", "c20", "register-failed", "orc_opcode_register_static returned 0 for the shape set", NULL, scen, NULL); return; }
+  os = orc_opcode_set_get ("shape");
+  rs = os ? orc_rule_set_new (os, sse, 0) : NULL;
+  if (rs) { orc_rule_register (rs, "mac3w", shape_rule_mac3, NULL); orc_rule_register (rs, "sumdiffw", shape_rule_sumdiff, NULL); }
+  for (which = 0; which < 2; which++) {
+    OrcProgram *p = orc_program_new (); OrcCompileResult res; OrcExecutor *ex; static orc_int16 a[64], b[64], c[64], c2[64], d1[64], d2[64], n1[64], n2[64]; int i, n = 45, bad = 0;
+    int v_d1 = orc_program_add_destination (p, 2, "d1"), v_d2 = orc_program_add_destination (p, 2, "d2"), v_s1 = orc_program_add_source (p, 2, "s1"), v_s2 = orc_program_add_source (p, 2, "s2"), v_s3 = orc_program_add_source (p, 2, "s3"), v_s4 = orc_program_add_source (p, 2, "s4");
+    orc_program_set_name (p, which ? "shape_sumdiff" : "shape_mac3");
+    if (which == 0) { orc_program_append_2 (p, "mac3w", 0, v_d1, v_s1, v_s2, v_s3); orc_program_append (p, "addw", v_d2, v_s3, v_s4); /* the third source stays live */ }
+    else { orc_program_append_2 (p, "sumdiffw", 0, v_d1, v_d2, v_s1, v_s2); }
+    res = orc_program_compile_for_target (p, sse);
+    vh_count ("c20.shape_programs", 1);
+    if (ORC_COMPILE_RESULT_IS_FATAL (res) || !p->orccode) {
+      snprintf (what, sizeof what, "a program using the application opcode %s (%s) cannot be compiled or emulated: result %#x, %s", which ? "sumdiffw" : "mac3w", which ? "2 destinations, 2 sources" : "3 sources", res, orc_program_get_error (p) ? orc_program_get_error (p) : "");
+      spec_viol ("C20", "c20", which ? "shape-2d2s-rejected" : "shape-3src-rejected", what, NULL, scen, NULL);
+      orc_program_free (p); continue;
+    }
+    for (i = 0; i < 64; i++) { a[i] = (orc_int16) (i * 37 - 500); b[i] = (orc_int16) (i * 11 + 3); c[i] = (orc_int16) (i * 501 - 7000); c2[i] = (orc_int16) (9 * i); d1[i] = d2[i] = n1[i] = n2[i] = 0x5a5a; }
+    ex = orc_executor_new (p); orc_executor_set_n (ex, n);
+    orc_executor_set_array (ex, v_s1, a); orc_executor_set_array (ex, v_s2, b); orc_executor_set_array (ex, v_s3, c); orc_executor_set_array (ex, v_s4, c2);
+    orc_executor_set_array (ex, v_d1, d1); orc_executor_set_array (ex, v_d2, d2);
+    orc_executor_emulate (ex);
+    for (i = 0; i < n && !bad; i++) {
+      orc_int16 e1 = which ? (orc_int16) (a[i] + b[i]) : (orc_int16) (a[i] * b[i] + c[i]), e2 = which ? (orc_int16) (a[i] - b[i]) : (orc_int16) (c[i] + c2[i]);
+      if (d1[i] != e1 || d2[i] != e2) { snprintf (what, sizeof what, "application opcode %s, element %d: emulated (%d,%d), expected (%d,%d)", which ? "sumdiffw" : "mac3w", i, d1[i], d2[i], e1, e2); spec_viol ("C20", "c20", which ? "shape-2d2s-emulation" : "shape-3src-emulation", what, NULL, scen, NULL); bad = 1; }
+    }
+    if (rs && ORC_COMPILE_RESULT_IS_SUCCESSFUL (res)) {
+      orc_executor_set_array (ex, v_d1, n1); orc_executor_set_array (ex, v_d2, n2);
+      orc_executor_run (ex);
+      for (i = 0; i < n && !bad; i++) if (n1[i] != d1[i] || n2[i] != d2[i]) { snprintf (what, sizeof what, "application opcode %s, element %d: native (%d,%d), emulated (%d,%d)", which ? "sumdiffw" : "mac3w", i, n1[i], n2[i], d1[i], d2[i]); spec_viol ("C20", "c20", which ? "shape-2d2s-native" : "shape-3src-native", what, NULL, scen, NULL); bad = 1; }
+      vh_count ("c20.shape_native_runs", 1);
+    } else if (rs) { snprintf (what, sizeof what, "application opcode %s has an sse rule without flag requirements but the program did not compile natively (result %#x)", which ? "sumdiffw" : "mac3w", res); spec_viol ("C20", "c20", "shape-rule-not-used", what, NULL, scen, NULL); }
+    orc_executor_free (ex); orc_program_free (p);
+  }
+}
+
 static void mode_c20 (void)
 {
   /* One process = one registration scenario (registration is global and permanent): scenario = vh_args.limit */
@@ -1058,6 +1126,7 @@ static void mode_c20 (void)
     }
     vh_count ("c20.ext_programs", (uint64_t) runs);
   }
+  c20_shapes (scen, sse);
   /* built-ins unchanged */
   for (k = 0; k < nb; k++) {
     OrcProgram *p = gen_build (&keep[k]); OrcCompileResult res = orc_program_compile_for_target (p, sse); uint64_t h = 7; int i;
